@@ -22,6 +22,65 @@ def abs_msg(m):
     return [m[0], m[1], [abs_control(c) for c in m[2]]]
 
 
+def known_oid_generic_(m):
+    from props.c01 import known_oid_generic
+
+    return known_oid_generic(m)
+
+
+def session_one(c):
+    """-> None (not expressible / not accepted) | (call, what-or-None)"""
+    from lib import sessions as S
+
+    if c.get("relay_input") is not None:
+        return None
+    m = c["msg"]
+    if known_oid_generic_(m):
+        return None
+    mid, op, ctl = m
+    k = op[0]
+    try:
+        if k in (0, 3, 7):
+            if k == 0 and op[1] != 3:
+                return None
+            s = S.new_session(S.CLIENT)
+            call = [S.C_BIND, op[2], op[3], ctl] if k == 0 else [S.C_EXT, op[1], op[2], ctl] if k == 7 else [S.C_SEARCH] + list(op[1:]) + [ctl]
+            want_op = op
+        elif k in (1, 4, 5, 6, 8) and isinstance(mid, int) and 0 < mid < 2**31:
+            if k in (1, 5, 8) and op[1][3] != []:
+                return None  # the helpers take no referral list
+            s = S.new_session(S.SERVER)
+            req = {1: [0, 3, b"", [1, b"GSSAPI", []]], 8: [7, b"1.2", []]}.get(k, [3, b"", 2, 0, 0, 0, False, [7, b"objectClass"], []])
+            if S.outcome_of(s, [S.RECV, msgs.pack([mid, req, []])])[0] != 3:
+                return None
+            call = {1: lambda: [S.S_BINDRESP, mid, op[2], op[1][0], op[1][1], op[1][2], ctl],
+                    8: lambda: [S.S_EXTRESP, mid, op[2], op[3], op[1][0], op[1][1], op[1][2], ctl],
+                    5: lambda: [S.S_DONE, mid, op[1][0], op[1][1], op[1][2], ctl],
+                    4: lambda: [S.S_ENTRY, mid, op[1], op[2], ctl],
+                    6: lambda: [S.S_REF, mid, op[1], ctl]}[k]()
+            want_op = op
+            if k in (1, 5, 8):
+                # the helpers always pass referrals=[]: an (empty) Referral element is written, see assumptions
+                want_op = [op[0], [op[1][0], op[1][1], op[1][2], [[]]]] + list(op[2:])
+        else:
+            return None
+        o = S.outcome_of(s, call)
+        if o[0] != 0:
+            return None  # whether a call is accepted is the session properties' question
+        data = s.data_to_send()
+    except Exception:  # noqa: BLE001
+        return None
+    what = None
+    try:
+        got = rfc4511.decode_strict(bytes(data))
+        want = abs_msg([o[1], want_op, ctl])
+        if canon(got) != canon(want):
+            what = f"session helper (call form {S._variant(call)}): the bytes sent denote a different message than the one asked for"
+    except rfc4511.Bad as e:
+        what = f"session helper: independent RFC 4511 decoder rejects the bytes sent: {e}"
+    return call, what
+
+
 def relay_check(obj):
     """obj came out of the decoder: the bytes produced for it must be strict RFC 4511 of what its fields show."""
     try:
@@ -46,7 +105,7 @@ class C03(C01):
         "the structured message values of C01 (all 9 kinds, every filter choice, all control forms, both credential "
         "choices); the bytes produced by the implementation are (a) compared with the extracted model's encoder and (b) "
         "decoded by an independent strict decoder written from the RFC 4511 ASN.1 module, whose result must equal the "
-        "abstract message; relay family: each message is also encoded as a peer may (incl. sloppy paged-results values), decoded by the implementation and the returned object packed again - those bytes go through the same strict decoder; non-trivial as in C01"
+        "abstract message; relay family: each message is also encoded as a peer may (incl. sloppy paged-results values), decoded by the implementation and the returned object packed again - those bytes go through the same strict decoder; session family: every message the helpers can express is sent through LDAPClient / LDAPServer in one of the documented call forms (bind_simple / bind_sasl, enum member or OID string as operation name, defaults left out) and the drained bytes go through the strict decoder; non-trivial as in C01"
     )
     assumptions = [
         "SIZE(1..MAX) and value-range subtype constraints (e.g. version 1..127, empty Referral written by the server helpers) are not enforced: the property lists tag/form/length/boolean/default/integer rules",
@@ -113,10 +172,33 @@ class C03(C01):
                 out.append(({**c, "relay_input": data}, what))
                 if len(out) >= 3:
                     break
+        out += self.through_sessions(ctx["cases"], rng)
+        return out
+
+    def through_sessions(self, cases, rng):
+        """The bytes an application actually produces come out of the session helpers (bind / bind_simple / bind_sasl,
+        extended_request with an OID string or an ExtendedOperations member, search_request with defaults left out,
+        the server's response helpers), not out of pack() on a hand-built message.  Every case that the helpers can
+        express is sent through a session in one of the documented call forms (lib/sessions.py) and the drained bytes
+        go through the strict decoder; they must denote the message the caller asked for."""
+        from lib import sessions as S
+
+        out = []
+        self.via_sessions = 0
+        for c in cases:
+            r = session_one(c)
+            if r is None:
+                continue
+            self.via_sessions += 1
+            call, what = r
+            if what:
+                out.append(({**c, "session_call": call}, what))
+                if len(out) >= 3:
+                    break
         return out
 
     def extra_evidence(self, ctx):
-        return {"relayed_messages_checked": getattr(self, "relayed", 0)}
+        return {"relayed_messages_checked": getattr(self, "relayed", 0), "messages_sent_through_session_helpers": getattr(self, "via_sessions", 0)}
 
     def finding_key(self, c, what):
         if "UnbindRequest is [APPLICATION 2] NULL" in what:
@@ -128,6 +210,9 @@ class C03(C01):
     def oracle(self, c, ans):
         if ans and ans[0] == "!timeout":
             return "timeout"
+        if c.get("session_call") is not None:
+            r = session_one({k: v for k, v in c.items() if k != "session_call"})
+            return None if r is None else r[1]
         if c.get("relay_input") is not None:
             from props.c01 import decode
 
